@@ -115,6 +115,18 @@ func c16Contexts() []string {
 	return ctx
 }
 
+// c16FractionProducers: producers of a non-integral number.
+func c16FractionProducers(lit string, half string) []c16Producer {
+	// lit e.g. "1.5"; half = the literal of lit/2 (exactly representable)
+	return []c16Producer{
+		{"literal", lit, "", ""}, {"arithmetic", "(" + lit + " - 1 + 1)", "", ""}, {"division", "(" + lit + " * 2 / 2)", "", ""}, {"sum-of-halves", "(" + half + " + " + half + ")", "", ""},
+		{"abs", BI("abs", "-"+lit), "", ""}, {"neg-neg", "(-(-" + lit + "))", "", ""}, {"max", BI("max", lit, "0"), "", ""}, {"min-array", BI("min", "["+lit+", 99]"), "", ""}, {"pow", BI("pow", lit, "1"), "", ""},
+		{"function-return", "mkv()", Fun("mkv", "", " "+Ret(lit)+" ") + "\n", ""}, {"parameter", "idf(" + lit + ")", "", ""}, {"array-element", "[" + lit + "][0]", "", ""}, {"object-property", "({k: " + lit + "}).k", "", ""},
+		{"variable", "held", Var("held", lit) + "\n", ""}, {"bangla-digits", BanglaDigits(lit, nil), "", ""}, {"grouped-literal", "(" + lit + ")", "", ""},
+		{"coerced-multiply", "(\"" + lit + "\" * 1)", "", ""}, {"coerced-abs", BI("abs", "\""+lit+"\""), "", ""},
+	}
+}
+
 type c16Record struct {
 	stdout, diag string
 	exit         int
@@ -211,6 +223,7 @@ func c16Run(c *Ctx) {
 		}
 		vals = append(vals, val{"number", lit, c16NumberProducers(n)})
 	}
+	vals = append(vals, val{"number", "1.5", c16FractionProducers("1.5", "0.75")}, val{"number", "0.5", c16FractionProducers("0.5", "0.25")}, val{"number", "2.25", c16FractionProducers("2.25", "1.125")})
 	k := 0
 	for ci, ctx := range ctxs {
 		for _, v := range vals {
@@ -245,7 +258,7 @@ func c16Run(c *Ctx) {
 func init() {
 	register(&CheckDef{
 		ID:   "C16",
-		Rule: "program groups: ~170 one-hole contexts (each operand position of each binary operator with number and string partners, unary operators, logical operators, if/while/for conditions, index read/write, property, call, each argument position of every built-in including the ইনপুট prompt and the কি_রিমুভ key, element of a printed array, property value, element/property store, every concatenation position, equality against the literal and against itself) x 11 string values (incl. empty, numeric-looking, Bangla digits, >= 10^6, three strings that Unicode normalisation would rewrite) with 12-14 producers each (literal, concatenations, object property, array element, function return, parameter, ইনপুট from stdin, property assignment, value/key listing, variable, logical result, number-to-string) and 8 number values (incl. 0, -1, 10^6, 2^20) with 19-21 producers each (literal, arithmetic, every bitwise operator, ~~, রাউন্ড, পরমমান, সর্বোচ্চ, সর্বনিম্ন of array, ঘাত, লেন, Bangla digits, function return, parameter, containers). Within each (context, value) group every producer's observation record (stdout bytes, exit status, first diagnostic with line numbers and quoted expression renderings removed) must equal the literal producer's. Non-trivial = distinct decided group.",
+		Rule: "program groups: ~170 one-hole contexts (each operand position of each binary operator with number and string partners, unary operators, logical operators, if/while/for conditions, index read/write, property, call, each argument position of every built-in including the ইনপুট prompt and the কি_রিমুভ key, element of a printed array, property value, element/property store, every concatenation position, equality against the literal and against itself) x 11 string values (incl. empty, numeric-looking, Bangla digits, >= 10^6, three strings that Unicode normalisation would rewrite) with 12-14 producers each (literal, concatenations, object property, array element, function return, parameter, ইনপুট from stdin, property assignment, value/key listing, variable, logical result, number-to-string) and 11 number values (incl. 0, -1, 10^6, 2^20 and the non-integral 0.5, 1.5, 2.25) with 19-21 producers each (literal, arithmetic, every bitwise operator, ~~, রাউন্ড, পরমমান, সর্বোচ্চ, সর্বনিম্ন of array, ঘাত, লেন, Bangla digits, function return, parameter, containers). Within each (context, value) group every producer's observation record (stdout bytes, exit status, first diagnostic with line numbers and quoted expression renderings removed) must equal the literal producer's. Non-trivial = distinct decided group.",
 		Assumptions: []string{"no expected output is needed: the oracle is pairwise equality; the producers are known to yield the same value by the language's own definitions (e.g. 7&3 = 3)"},
 		Run:         c16Run,
 		Judge:       c16Judge,
